@@ -531,7 +531,7 @@ def check_card_text(ctx, F):
             good = True
     if good:
         def parsed_from(t, parser_adt, lo, hi):
-            s = P.strip(t)
+            s = P.strip(P.narrow_deep(P.strip(t)))      # looks through `.map_err(..)?` on the parser's result
             # (tuple.k as Ok).0 of X::from_str(&v[lo..hi])
             if not (s[0] == "field" and s[1][0] == "variant" and s[1][2] == "Ok"):
                 return False
@@ -550,6 +550,8 @@ def check_card_text(ctx, F):
         n = I.norm_rel(term, truth)
         if n and n[0] == "Eq":
             x, y = P.strip(n[1]), P.strip(n[2])
+            if P.const_int(x) is not None:
+                x, y = y, x
             if x[0] == "call" and x[1].rsplit("::", 1)[-1] == "len" and P.strip(x[2][0]) == ("param", 1) and P.const_int(y) == 2:
                 len_edges.append((b, lab))
     good = good and bool(len_edges) and I.guarded_by(fs, ob, len_edges)
